@@ -60,6 +60,9 @@ impl MT111 {
         let field_59 = parser.parse_optional_field::<Field59NoOption>("59")?;
         let field_75 = parser.parse_optional_field::<Field75>("75")?;
 
+        // Verify all content is consumed
+        verify_parser_complete(&parser)?;
+
         Ok(MT111 {
             field_20,
             field_21,
